@@ -84,9 +84,9 @@ func sameInts(a, b []int) bool {
 // wantIDs: the id sets the property's reading permits (accept[0] = the strict reading)
 //
 // latitude (written here because the property leaves it open):
-//   * `alt`  — Not over a multi-member AND unit none of whose members is a generated comparison may be the negation
+//   - `alt`  — Not over a multi-member AND unit none of whose members is a generated comparison may be the negation
 //     of the whole unit (gorm writes NOT (a AND b)) instead of member-wise;
-//   * the primary key of the model value is one more AND unit: either the last unit of the flat left-to-right
+//   - the primary key of the model value is one more AND unit: either the last unit of the flat left-to-right
 //     combination (so it binds to the last OR-run under standard precedence), or a conjunct of the whole chain
 //     (what gorm's soft-delete regrouping yields) — both readings are accepted.
 func wantIDs(w *wWorld, ch *wChain, rows []wRow, soft bool, unscoped bool, pk int) (accept [][]int, hasCond bool) {
@@ -537,13 +537,13 @@ func c02Chains(r *Result, rng *rand.Rand, n int, softOnly bool) {
 var c02Cache = map[string]json.RawMessage{}
 
 type c02Generated struct {
-	rng    *rand.Rand
-	w      *wWorld
-	rows   []wRow
-	ch     *wChain
-	ask    []interface{}
-	pk     int           // the key of the model value used by the …pk finishers
-	askPK  []interface{} // the same chain followed by the key condition (the expression list those finishers render)
+	rng   *rand.Rand
+	w     *wWorld
+	rows  []wRow
+	ch    *wChain
+	ask   []interface{}
+	pk    int           // the key of the model value used by the …pk finishers
+	askPK []interface{} // the same chain followed by the key condition (the expression list those finishers render)
 }
 
 // c02Gen: everything about one case that is determined by its seed, and the question put to the Lean model
